@@ -104,6 +104,10 @@ func addByPath(set entities.Set, path string, extra int, tid uint16, elems []ent
 
 var fixedTime = time.Unix(0, 0)
 
+// the last nanosecond of a second late in the 32-bit range: the export time is the SECOND of sending (time.Unix()),
+// whatever the sub-second part is
+var lateInSecond = time.Unix(4102444799, 999999999)
+
 func setObs(set entities.Set) string {
 	var recs []string
 	sum := 0
@@ -119,6 +123,12 @@ func setObs(set entities.Set) string {
 	msg := "err"
 	if b, err := exporter.CreateIPFIXMsg(set, 7, 9, fixedTime); err == nil {
 		msg = hexs(b)
+	}
+	if b, err := exporter.CreateIPFIXMsg(set, 7, 9, lateInSecond); err == nil && len(b) >= 8 {
+		// the export-time field of the same message built at xx:xx:59.999999999 must read that second, not the next
+		if et := uint32(b[4])<<24 | uint32(b[5])<<16 | uint32(b[6])<<8 | uint32(b[7]); et != 4102444799 {
+			msg = fmt.Sprintf("export-time-%d-for-second-4102444799", et)
+		}
 	}
 	return fmt.Sprintf("%s %d %s %d %s %s", setTypeTok(set.GetSetType()), set.GetSetLength(), hexs(set.GetHeaderBuffer()), set.GetNumberOfRecords(), rs, msg)
 }
